@@ -39,7 +39,7 @@ def baseline_generated(files):
                 shutil.copyfile(src, dst)
 
 
-GENERATED_FILES = ["AttrNullGen.lean", "StepFileGen.lean", "ThreadingGen.lean", "Enums.lean", "InstMgrGen.lean", "P21RWGen.lean"]
+GENERATED_FILES = ["AttrNullGen.lean", "StepFileGen.lean", "ThreadingGen.lean", "Enums.lean", "InstMgrGen.lean", "P21RWGen.lean", "HeaderIdsGen.lean"]
 
 
 # ------------------------------------------------------------------ building
@@ -415,6 +415,134 @@ def mode_histories(ctx, h, schema, pop, idx, pi, ai, a, workdir, exit_thr, exch_
     return out
 
 
+def pretc_cases(ctx, h, schema, pop, model_exe, workdir, exit_thr):
+    """the pre-technical-corrigendum encoding (ReadExchangeFile( file, useTechCor = false )): every redefining attribute of the C++
+    attribute list has a value of its own, `*`.  Internally mapped instances of entities that redeclare attributes, one per file:
+    conforming; one redefining entry given `$` / nothing / a literal; one plain position unset (`$` / nothing); the trailing
+    values left out.  Compared with the model (file severity, state, which attributes hold a value afterwards) and judged by the
+    decision table.  returns (property problems, correspondence problems)"""
+    prop, corr = [], []
+    todo = []
+    for idx, inst in enumerate(pop):
+        if inst.is_complex or G.inst_refs(inst):
+            continue
+        ent = schema.by_name[inst.parts[0][0].lower()]
+        attrs = G.part_attrs(schema, inst, 0)
+        n_red = sum(1 for a in attrs if a.redef_name)
+        if not n_red:
+            continue
+        k = len(attrs) - len(ent.attrs)
+        vals = [G.render_val(v, lambda: "") for v in inst.parts[0][1]]
+        words = model_inst(schema, inst)[2:].split()
+        words = [w for w in words if w != "RD"]
+        has_derived = any(a.derived for a in attrs)
+
+        def case(tag, vtoks, wtoks, rd, attr_case=None):
+            """vtoks/wtoks: file text / model word per attribute position; rd: [(text, model token)] per redefining entry"""
+            ptxt = vtoks[:k] + [t for t, _ in rd] + vtoks[k:]
+            mw = wtoks[:k] + ["RD:" + t for _, t in rd] + wtoks[k:]
+            todo.append({"tag": tag, "idx": idx, "inst": inst, "params": ",".join(ptxt), "words": mw, "attr_case": attr_case,
+                         "bitmap_ok": not has_derived, "n_attrs": len(attrs), "k": k, "n_red": n_red})
+        star = [("*", "ST")] * n_red
+        case("conforming", vals, words, star)
+        for j in range(n_red):
+            for txt, tok in (("$", "M1"), ("", "M0"), ("12", "LNULL"), (".T.", "LNULL")):
+                rd = list(star)
+                rd[j] = (txt, tok)
+                case(f"redefining entry {j} given `{txt}`", vals, words, rd)
+        for ai, a in enumerate(attrs):
+            if a.derived:
+                continue
+            for dollar in (True, False):
+                v2, w2 = list(vals), list(words)
+                v2[ai] = "$" if dollar else ""
+                w2[ai] = w2[ai].rsplit(":", 1)[0] + (":M1" if dollar else ":M0")
+                case(f"{a.name} {'`$`' if dollar else 'absent'}", v2, w2, star, attr_case=(ai, a, dollar))
+        # trailing values left out: the parameter list ends after the inherited positions / after some of the `*`
+        for cut in range(k, k + n_red + len(ent.attrs)):
+            ptxt = (vals[:k] + ["*"] * n_red + vals[k:])[:cut]
+            mw = words[:k] + ["RD:ST"] * n_red + words[k:]
+            mw = mw[:cut] + [w_.rsplit(":", 1)[0] + ":-" for w_ in mw[cut:]]
+            if ptxt:
+                todo.append({"tag": f"only the first {cut} of {k + n_red + len(ent.attrs)} values", "idx": idx, "inst": inst,
+                             "params": ",".join(ptxt), "words": mw, "attr_case": None, "bitmap_ok": False, "n_attrs": len(attrs), "k": k,
+                             "n_red": n_red, "cut": True})
+    if not todo:
+        return prop, corr
+    lines = []
+    for c in todo:
+        for strict in (0, 1):
+            lines.append(f"readpre {strict} | S " + " ".join(c["words"]))
+    mr = subprocess.run([model_exe], input="\n".join(lines) + "\n", capture_output=True, text=True)
+    mout = mr.stdout.split("\n")
+    if mr.returncode != 0 or len(mout) < len(lines):
+        return prop, [(None, f"model driver failed on readpre rc={mr.returncode} {mr.stderr[-300:]}")]
+    li = 0
+    for c in todo:
+        for strict in (0, 1):
+            reply = mout[li]; li += 1
+            inst = c["inst"]
+            text = (f"ISO-10303-21;\nHEADER;\nFILE_DESCRIPTION((''),'2;1');\nFILE_NAME('','',(''),(''),'','','');\n"
+                    f"FILE_SCHEMA(('{schema.name.upper()}'));\nENDSEC;\nDATA;\n#{inst.id}={inst.parts[0][0].upper()}({c['params']});\n"
+                    "ENDSEC;\nEND-ISO-10303-21;\n")
+            path = os.path.join(workdir, "pretc.p21")
+            open(path, "w").write(text)
+            h.cmd(f"reset {strict}")
+            r = kv(h.cmd(f"readpre {path}"))
+            d = parse_dump(h.cmd("dump"))
+            st = d[0][2] if d else "absent"
+            bits = None
+            if d:
+                vr = h.cmd("vals 0")
+                bits = "".join("0" if w.split("/")[2] == "-" else "1" for w in vr.split()[2:] if w.count("/") == 2 and w.split("/")[1] == "0")
+            ctx.count(1, key=("pretc", schema.name, inst.id, c["tag"], strict))
+            ctx.hist("pre-technical-corrigendum case", c["tag"].split(" given")[0] if "redefining" in c["tag"] else
+                     ("conforming" if c["tag"] == "conforming" else "trailing left out" if c.get("cut") else "plain position unset"))
+            info = {"pretc": True, "tag": c["tag"], "strict": bool(strict), "file": text, "kind": "pretc", "idx": 0, "pop": [inst]}
+            # ---- oracle
+            exit1 = SEV_RANK[r["sev"]] <= SEV_RANK[exit_thr]
+            what = None
+            if c["tag"] == "conforming":
+                if exit1 or st != "completeSE" or r["sev"] != "NULL":
+                    what = f"pre-technical-corrigendum encoding, conforming instance: severity {r['sev']}, state {st}"
+            elif c["attr_case"]:
+                ai, a, dollar = c["attr_case"]
+                obs = {"sev": r["sev"], "states": [st]}
+                val = None
+                if not a.optional and not strict and dollar and a.base in SUBST:
+                    # the substituted value: in memory (a redeclared position keeps it in its redefining attribute)
+                    val = memory_value(h, 0, a.name)
+                    obs_ok = val is not None and val[0] == "tok" and G.tok_equal(val[1], SUBST[a.base])
+                    if exit1 or r["sev"] != "USERMSG" or not obs_ok:
+                        what = (f"pre-technical-corrigendum encoding, lenient mode, `$` for required {a.base} ({a.name}): severity {r['sev']}, "
+                                f"state {st}, value in memory {val!r}; expected a user message and {SUBST[a.base]}")
+                else:
+                    what = oracle(a.base, a.optional, bool(strict), obs, 0, exit_thr, None, dollar)
+                    if what:
+                        what = "pre-technical-corrigendum encoding: " + what
+            elif "redefining entry" in c["tag"]:
+                if not exit1 or st == "completeSE":
+                    what = (f"pre-technical-corrigendum encoding, {c['tag']} instead of `*`: read accepted (severity {r['sev']}, state {st})")
+            if what:
+                prop.append((info, what))
+            # ---- correspondence
+            mm = reply.split(" | ") if reply.startswith("F ") else None
+            if not mm or len(mm) != 2:
+                corr.append((info, f"pre-TC {c['tag']}: model reply {reply!r}"))
+                continue
+            mh, (msev, mst, mbits) = kv(mm[0]), mm[1].strip().split("/")
+            diff = None
+            if mh["sev"] != r["sev"]:
+                diff = f"file severity impl {r['sev']} model {mh['sev']}"
+            elif mst != st:
+                diff = f"state impl {st} model {mst}"
+            elif c["bitmap_ok"] and bits is not None and bits != mbits.ljust(len(bits), "0"):
+                diff = f"attributes holding a value afterwards: impl {bits} model {mbits}"
+            if diff:
+                corr.append((info, f"pre-TC {c['tag']} (strict={strict}) `{c['params']}`: {diff}"))
+    return prop, corr
+
+
 def decode_model(reply):
     """F sev=.. exit=.. | sev/state/p.a=words,.. | ..."""
     if not reply.startswith("F "):
@@ -576,6 +704,9 @@ def run_schema(ctx, b, schema, pop, workdir, exe, p21read, model_exe, exit_thr, 
                     info.update({"pop": m, "idx": idx, "pi": pi, "ai": ai, "attr": a.name, "shape": "simple", "dollar": True,
                                  "mode_history": True})
                     problems["property"].append((info, what))
+            pp, pc = pretc_cases(ctx, h, schema, pop, model_exe, workdir, exit_thr)
+            problems["property"] += pp
+            problems["correspondence"] += pc
             if p21read and ("req", "INTEGER") in picks:
                 idx, pi, ai, a, path, m = picks[("req", "INTEGER")]
                 pr, corr = p21read_spellings(ctx, b, p21read, model_exe, workdir, path, m[idx], pi, ai, a.base)
@@ -591,6 +722,9 @@ def run_schema(ctx, b, schema, pop, workdir, exe, p21read, model_exe, exit_thr, 
 
 
 def key_of(info):
+    if info.get("pretc"):
+        cls = "conforming" if info["tag"] == "conforming" else ("redefining-entry-not-star" if "redefining entry" in info["tag"] else "position-unset")
+        return f"pretc:{cls}:{'strict' if info['strict'] else 'lenient'}"
     if info.get("p21read_flags") is not None:
         return "p21read-flags:" + ("+".join(info["p21read_flags"]) or "none")
     if info.get("mode_history"):
@@ -605,6 +739,11 @@ def key_of(info):
 
 
 def minimal_replay(schema, info):
+    if info.get("pretc"):
+        return {"schema_express": schema.express(), "schema_name": schema.name, "file": info["file"], "strict": info["strict"],
+                "pretc": info["tag"], "expect": ("clean" if info["tag"] == "conforming" else "rejected" if "redefining entry" in info["tag"] else "table"),
+                "how": "exp2cxx the schema, link harness/h_p21.cc with it, `reset <strict>`, `readpre FILE` "
+                       "(= ReadExchangeFile( FILE, useTechCor = false )), `dump`, `vals 0`"}
     pop = info["pop"]
     if info.get("idx") is None:
         mini = pop
@@ -739,6 +878,17 @@ def replay(ctx, path):
             print(f"p21read {' '.join(flags)} FILE -> exit {rr.returncode}; the spelling requests strict={bool(want)}")
             if (rr.returncode != 0) != bool(want):
                 ctx.violation(d.get("key", "replay"), d.get("what", "p21read exit status does not follow the requested mode"), r)
+            return
+        if r.get("pretc"):
+            h.cmd(f"reset {1 if r['strict'] else 0}")
+            rr = kv(h.cmd(f"readpre {f}"))
+            dd = parse_dump(h.cmd("dump"))
+            st = dd[0][2] if dd else "absent"
+            print("readpre:", rr, "state", st, h.cmd("vals 0"))
+            rejected = SEV_RANK[rr["sev"]] <= SEV_RANK[exit_threshold()]
+            bad = (r["expect"] == "clean" and (rejected or st != "completeSE")) or (r["expect"] == "rejected" and (not rejected or st == "completeSE"))
+            if bad or r["expect"] == "table":
+                ctx.violation(d.get("key", "replay"), d.get("what", f"pre-technical-corrigendum encoding, {r['pretc']}: severity {rr['sev']}, state {st}"), r)
             return
         if r.get("history_commands"):
             # the replay file is the exchange file; the working-session variant is rendered from it
